@@ -14,7 +14,7 @@ PROPS = {
  "C11": dict(needs=CORE + ["Float", "Arith", "LinkArith", "Eq", "Complex", "LinkKinds", "HeapFacts", "Refine1", "Refine2", "RunG", "Order", "PowBool", "Numerals"], gen=["GenArith", "GenKinds"], slices=[("slices_core", "int_kernels"), ("slices_values", "c11_tower"), ("slices_values", "c11_numerals")]),
  "C19": dict(needs=CORE + ["Events"], gen=[], slices=[("slices_core", "c19_dyck"), ("slices_core", "core_programs"), ("slices_core", "io_trees")]),
  "C01": dict(search=("slices_text", "c01_witness"), needs=["Base", "Num", "Lex", "Jamo", "SpecC01", "Skeleton"], gen=["GenParse", "GenTS"], slices=[("slices_text", "c01_exhaustive"), ("slices_text", "c01_model_points"), ("slices_text", "c01_respell")]),
- "C08": dict(needs=["Base", "Num", "NumProofs", "Lex", "ParseProofs", "Strings", "Builtins", "Interp", "LinkNames", "ImpSearch"], gen=["GenParse", "GenNames", "GenIO"], slices=[("slices_text", "c08_codec"), ("slices_text", "c08_spellings"), ("slices_world", "c15_search")]),
+ "C08": dict(needs=["Base", "Num", "NumProofs", "Lex", "ParseProofs", "PadToken", "Strings", "Builtins", "Interp", "LinkNames", "ImpSearch"], gen=["GenParse", "GenNames", "GenIO"], slices=[("slices_text", "c08_codec"), ("slices_text", "c08_spellings"), ("slices_world", "c15_search")]),
  "C09": dict(needs=["Base", "Num", "NumProofs", "Lex", "ParseProofs"], gen=["GenParse"], slices=[("slices_text", "c09_parse")]),
  "C14": dict(needs=REFINE + ["Files", "FilesProofs", "FilesTotal", "LinkNames", "RunG", "IOSpec", "FileIO"], gen=["GenIO"], slices=[("slices_world", "c14_histories"), ("slices_world", "c14_total_histories"), ("slices_world", "c14_in_model"), ("slices_world", "c14_faults")]),
  "C15": dict(needs=REFINE + ["ImpSearch", "ImportProofs", "ImpLoad", "ModFS", "ModFSProofs", "RunG", "ImportMain", "ImportDisk", "Pure"], gen=[], slices=[("slices_world", "c15_search"), ("slices_world", "c15_semantics"), ("slices_world", "c15_in_model")]),
